@@ -9,6 +9,7 @@ import (
 	"fmt"
 	"os"
 	"path/filepath"
+	"regexp"
 	"runtime"
 	"sync"
 
@@ -90,7 +91,16 @@ func operandValue(o operand) (any, bool) {
 				ty = "unsignedInt"
 			}
 		}
-		m, err := lib.FHIRElement(ty, e.Go)
+		l := e.Go
+		if m := msFraction.FindStringSubmatchIndex(l.Text); m != nil && e.Go.Kind == "dateTime" && o.K%2 == 0 {
+			// digits below the millisecond, which FHIR dateTime/instant elements can carry and a System DateTime cannot:
+			// the element stands for the pool value (components down to the millisecond), whatever lies behind them
+			l.Text = l.Text[:m[3]] + "456" + l.Text[m[3]:]
+			if m[4] >= 0 {
+				ty = "instant" // an offset is present: an instant can carry the value too
+			}
+		}
+		m, err := lib.FHIRElement(ty, l)
 		if err != nil {
 			return nil, false
 		}
@@ -148,6 +158,8 @@ func tokenItem(tok string) any {
 	lib.Fatal("unknown token %q", tok)
 	return nil
 }
+
+var msFraction = regexp.MustCompile(`T\d\d:\d\d:\d\d(\.\d\d\d)(Z|[+-]\d\d:\d\d)?$`)
 
 type cacheKey struct {
 	o operand
